@@ -1,11 +1,26 @@
 """Loading and pretty-printing of the fact file produced by rlfacts (E1)."""
 import json
+import re
 
 
 class Facts:
     def __init__(self, path):
         with open(path) as f:
-            self.doc = json.load(f)
+            text = f.read()
+        self.doc = json.loads(text)
+        self.renamed_types = renamed_private_types(self.doc)
+        if self.renamed_types:
+            # give renamed private types their reference names back, everywhere (types, callee paths, body keys)
+            for cur, ref in sorted(self.renamed_types.items(), key=lambda kv: -len(kv[0])):
+                text = re.sub(r"(?<![\w])%s(?![\w])" % re.escape(cur), ref.replace("\\", "\\\\"), text)
+                # short forms without the crate-level module prefix are used in some keys
+                cs, rs = cur.split("::"), ref.split("::")
+                # a struct's only variant carries the struct's name
+                text = re.sub(r'("variant"\s*:\s*")%s(")' % re.escape(cs[-1]), r"\g<1>%s\g<2>" % rs[-1], text)
+                text = re.sub(r'(\{\s*"name"\s*:\s*")%s("\s*,\s*"fields")' % re.escape(cs[-1]), r"\g<1>%s\g<2>" % rs[-1], text)
+                for k in range(1, len(cs) - 1):
+                    text = re.sub(r"(?<![\w:])%s(?![\w])" % re.escape("::".join(cs[k:])), "::".join(rs[k:]), text)
+            self.doc = json.loads(text)
         self.renamed = canonicalise_fields(self.doc)
         self.bodies = {b["key"]: b for b in self.doc["bodies"]}
         self.items = self.doc["items"]
@@ -51,13 +66,57 @@ def _field_alias(ref_fields, cur_fields):
     return {c: r for c, r in alias.items() if r not in taken}
 
 
-def canonicalise_fields(doc):
-    """rename fields in the fact document to their reference names (spec/field_roles.json); returns {adt: {current: reference}}"""
+def _load_roles():
     import os
     path = os.path.join(os.path.dirname(os.path.dirname(os.path.abspath(__file__))), "spec", "field_roles.json")
     try:
-        ref = json.load(open(path))["structs"]
+        return json.load(open(path))
     except Exception:
+        return {}
+
+
+def renamed_private_types(doc):
+    """{current path -> reference path} for private structs/enums that replaced a missing reference type of the same module"""
+    roles = _load_roles()
+    ref_structs, ref_enums, spub = roles.get("structs", {}), roles.get("enums", {}), roles.get("struct_pub", {})
+    cur = {a["path"]: a for a in doc["items"]["adts"] if not a["path"].startswith("testing::")}
+    out = {}
+    missing_s = [p for p in ref_structs if p not in cur and not spub.get(p, True)]
+    missing_e = [p for p, e in ref_enums.items() if p not in cur and not e.get("pub", True)]
+    new_s = [p for p, a in cur.items() if not a["is_enum"] and p not in ref_structs and not a.get("pub")]
+    new_e = [p for p, a in cur.items() if a["is_enum"] and p not in ref_enums and not a.get("pub")]
+
+    def mod(p):
+        return p.rsplit("::", 1)[0] if "::" in p else ""
+    for r in missing_s:
+        rn = r.rsplit("::", 1)[-1]
+        cands = []
+        for c in new_s:
+            if mod(c) != mod(r) or c in out:
+                continue
+            cn = c.rsplit("::", 1)[-1]
+            cf = cur[c]["variants"][0]["fields"]
+            rf = ref_structs[r]
+            if len(cf) != len(rf):
+                continue
+            same_names = [f["name"] for f in cf] == [f["name"] for f in rf]
+            same_types = [re.sub(r"(?<![\w])%s(?![\w])" % re.escape(cn), rn, f["ty"]) for f in cf] == [f["ty"] for f in rf]
+            if same_names or same_types:
+                cands.append(c)
+        if len(cands) == 1:
+            out[cands[0]] = r
+    for r in missing_e:
+        cands = [c for c in new_e if mod(c) == mod(r) and c not in out
+                 and [v["name"] for v in cur[c]["variants"]] == ref_enums[r]["variants"]]
+        if len(cands) == 1:
+            out[cands[0]] = r
+    return out
+
+
+def canonicalise_fields(doc):
+    """rename fields in the fact document to their reference names (spec/field_roles.json); returns {adt: {current: reference}}"""
+    ref = _load_roles().get("structs", {})
+    if not ref:
         return {}
     renamed = {}
     for a in doc["items"]["adts"]:
